@@ -49,17 +49,26 @@ class ShapeInterp:
         return len(body) == 0 or (len(body) == 1 and isinstance(body[0], (ast.Pass, ast.Raise)))
 
     def class_level(self, c: ClassInfo) -> int:
-        if c.fq in self.level_cache:
-            return self.level_cache[c.fq]
-        if c.fq in self.in_progress:
-            return ATOM  # recursion through the operand: its level is checked where it is used
-        self.in_progress.add(c.fq)
-        m = c.lookup("format_as_spec")
-        assert m is not None
-        lv = self.func_level(m, c, {})
-        self.in_progress.discard(c.fq)
-        self.level_cache[c.fq] = lv
-        return lv
+        """Current approximation of the level class c prints at (fixpoint over `solve`)."""
+        return self.level_cache.get(c.fq, ATOM)
+
+    def solve(self) -> None:
+        """Least fixpoint of the print levels (classes embed each other recursively), then one
+        checking pass with the stable levels."""
+        for _ in range(8):
+            changed = False
+            for c in self.concrete:
+                m = c.lookup("format_as_spec")
+                assert m is not None
+                self.violations = []
+                lv = self.func_level(m, c, {})
+                if lv > self.level_cache.get(c.fq, ATOM):
+                    self.level_cache[c.fq] = lv
+                    changed = True
+            if not changed:
+                break
+        self.violations = []
+        self.obligations = 0
 
     # classes that may occupy a field typed `Node`
     def occupants(self, narrowed: Optional[set[str]] = None) -> list[ClassInfo]:
@@ -303,12 +312,13 @@ def run(chk: Check, eng: Engine) -> None:
     si = ShapeInterp(eng, chk, node_base)
     if len(si.concrete) < 8:
         raise AnalysisError(f"only {len(si.concrete)} concrete grammar node classes found")
+    si.solve()
     for c in sorted(si.concrete, key=lambda c: c.fq):
         m = c.lookup("format_as_spec")
         assert m is not None
         eng.consult(m.module)
         before = len(si.violations)
-        lv = si.class_level(c)
+        lv = si.func_level(m, c, {})
         if len(si.violations) == before:
             chk.ok("R15-a", m.fq, m.line, f"{c.name} prints at level {LEVEL_NAME[lv]}; every operand/element it embeds prints at an accepted level")
     seen = set()
@@ -405,3 +415,24 @@ def run(chk: Check, eng: Engine) -> None:
         chk.ok("R15-c", rp.fq, rp.line, "TreeValue.__repr__ delegates to repr() of the raw str/bytes payload")
     else:
         chk.bad("R15-c", eng.relfile(rp), rp.line, rp.fq, "TreeValue.__repr__ does not print the raw payload with repr()", "literal printing is no longer by repr", keyparts="tv-repr")
+
+
+# ------------------------------------------------------------------ self-test variants
+from ..mutants import M  # noqa: E402
+
+_R = "src/fandango/language/grammar/nodes/repetition.py"
+_A = "src/fandango/language/grammar/nodes/alternative.py"
+_TS = "src/fandango/language/symbols/terminal.py"
+MUTANTS = [
+    M("star-unparenthesised", _R, "        return self._operand_as_spec() + \"*\"\n", "        return self.node.format_as_spec() + \"*\"\n", "R15-a"),
+    M("operand-helper-forgets-repetition", _R, "        if isinstance(self.node, (Concatenation, Repetition)):\n            return f\"({spec})\"", "        if isinstance(self.node, Concatenation):\n            return f\"({spec})\"", "R15-a"),
+    M("alternative-drops-parens", _A, "        return (\n            \"(\" + \" | \".join(map(lambda x: x.format_as_spec(), self.alternatives)) + \")\"\n        )",
+      "        return \" | \".join(map(lambda x: x.format_as_spec(), self.alternatives))", "R15-a"),
+    M("open-bound-through-max", _R, "        if self._max is None:\n            # open-ended: print the bound as written, not the current process-wide cap\n            return f\"{self._operand_as_spec()}{{{self.min},}}\"\n",
+      "        if self._max is None:\n            return f\"{self._operand_as_spec()}{{{self.min},{self.max}}}\"\n", "R15-b"),
+    M("literal-str-instead-of-repr", _TS, "        # Not a regex\n        return repr(self._value)", "        # Not a regex\n        return \"'\" + str(self._value) + \"'\"", "R15-c"),
+]
+TWINS = [
+    M("twin-fstring-to-concat", _R, "        return self._operand_as_spec() + \"+\"\n", "        return f\"{self._operand_as_spec()}+\"\n", None),
+    M("twin-helper-else", _R, "        if isinstance(self.node, (Concatenation, Repetition)):\n            return f\"({spec})\"\n        return spec", "        if isinstance(self.node, (Concatenation, Repetition)):\n            return f\"({spec})\"\n        else:\n            return spec", None),
+]
